@@ -25,7 +25,7 @@ CLAIMED = {
    text="State bound that implies no drift, on explored prefixes: constant ratio (symbolic, set once): spacing across chunk boundaries equals 1/r and the lag supplied-minus-evaluated stays within filter+1/r+3 (FastFixedOut; FastFixedIn at slow ratios 1/r>7); synchronous types: 0 <= in*rate_out - out*rate_in < one block after every call (== 0 for FixedInOut), FixedInOut block sizes exact/smallest, for concrete configurations incl. block > chunk.",
    note="prefixes of 2-6 calls; the inductive extension to unbounded streams is NOT claimed (would need injected states); FFT stub",
    technique="bounded model checking of compiled code (Kani/CBMC SAT), index-signal observation, integer accounting"),
- "C08": dict(cat="other", ref="DESIGN.md sections 5 C08, 11",
+ "C08": dict(cat="model_checking", ref="DESIGN.md sections 5 C08, 11",
    text="(a) mirsym executes the MIR of interp_septic/quintic/cubic/lin (and the sinc-side cubic/quad/lin) with T := Real and z3+cvc5 decide exactness for ALL real x and ALL polynomials of admissible degree (unsat of the negation; cvc5 cross-check on basis+linearity). (b) Kani: window selection and uniform instants: frame j is evaluated at -4+(j+1)/ratio (FastFixedOut symbolic ratio; FastFixedIn Quintic/Septic/Cubic at concrete non-integer ratios; FastFixedOut with an output chunk smaller than the ratio, i.e. calls that take no new input).",
    note="real-number reading of generic T (assumption A-round bridges to floats); (b) bounded to 2-3 calls, chunk <= 8",
    technique="SMT (z3 nlsat + cvc5) over symbolic execution of rustc MIR; bounded model checking (Kani) for window selection"),
